@@ -1194,7 +1194,10 @@ def run(P, rep, tier):
                        'Parser-side context and scope discipline is decided by typestate rules over parse.c: stmt() is explored per keyword arm and the break/continue/switch '
                        'context is recorded at every hand-off to a sub-parser (sub-statement vs. any other part of the statement); the declaring functions (enum_specifier, declaration, '
                        'global_variable, parse_typedef, function, compound_stmt) are explored with the scope-table insertions, the parser hand-offs and enter/leave_scope as events, and '
-                       'their order on every path is compared with the point of declaration C11 6.2.1p7 prescribes.')
+                       'their order on every path is compared with the point of declaration C11 6.2.1p7 prescribes. R03.9 replays the enter/leave_scope calls of every path of stmt() as a scope stack and '
+                       'requires every part of a selection/iteration statement to be parsed inside a scope of that statement (and no other statement form to open one). R03.2 also decides the emptiness test '
+                       'of GNU case ranges per type class of the controlling expression (operand signedness of the comparison as clang types it). R03.10 explores every Node*-returning function of parse.c '
+                       'with the plain node constructors interpreted and counts, in the tree each path returns, the links to every operand tree it was given: more than one link = evaluated more than once.')
     rep.assumptions += ['children and sub-statements satisfy their contracts (structural induction)', 'floating truth tests are judged by C02 (R02.4); here either NaN treatment is accepted']
     r033(cg, rep)
     r033_switch(cg, rep)
